@@ -36,6 +36,8 @@ class ParamsProp(Prop):
         if "bad" in impl:
             return dict(agree=False, spec_ok=None, why="harness rejected: %s" % impl["bad"], skip=True)
         model = reply["model"]
+        if "crash" in impl:
+            return dict(agree=False, spec_ok=None, why="implementation crashed the process (rc=%s)" % impl["crash"], concrete=True, crash=True)
         if "panic" in impl:
             # whole op panicked in the implementation
             mp = core.norm_result(model.get("merged"), False)[0] == "panic" or core.norm_result(model.get("rendered"), False)[0] == "panic"
